@@ -72,6 +72,74 @@ func ArrResult() []any {
 	return []any{1, "x<y", []any{2.5, nil, true}, map[string]any{"k": int64(7), "n": []any{"deep"}}}
 }
 
+// Catalogue is the behaviour of harness function #id for a receiver type: a
+// pure function of (id, receiver, arguments). The registered closures and the
+// C20 reference model both call it.
+func Catalogue(recv string, id int, r any, args []any) any {
+	switch recv {
+	case "str":
+		s := r.(string)
+		switch id % NumFns {
+		case 0:
+			return fmt.Sprintf("S%d<%s>", id, s)
+		case 1:
+			return fmt.Sprintf("S%d[%s|%s]", id, s, Describe([]any(args)))
+		case 2:
+			return ""
+		}
+		return strings.ToUpper(s) + fmt.Sprint(len(args))
+	case "arr":
+		a := r.([]any)
+		switch id % NumFns {
+		case 0:
+			out := make([]any, len(a))
+			for i, e := range a {
+				out[len(a)-1-i] = e
+			}
+			return out
+		case 1:
+			return ArrResult()
+		case 2:
+			return append([]any{Describe([]any(a))}, args...)
+		}
+		return []any(nil)
+	case "int":
+		i := r.(int)
+		switch id % NumFns {
+		case 0:
+			return i + 1000*(id+1)
+		case 1:
+			return -i
+		case 2:
+			return len(args)
+		}
+		return i * 2
+	case "float":
+		f := r.(float64)
+		switch id % NumFns {
+		case 0:
+			return f + 0.5 + float64(id)
+		case 1:
+			return -f
+		case 2:
+			return float64(len(args))
+		}
+		return f * 2
+	case "bool":
+		b := r.(bool)
+		switch id % NumFns {
+		case 0:
+			return !b
+		case 1:
+			return b
+		case 2:
+			return len(args) > 0
+		}
+		return true
+	}
+	panic("sim: unknown receiver type " + recv)
+}
+
 func (w *World) register(op Op) error {
 	rec := w.Rec
 	id := op.Fn
@@ -86,71 +154,27 @@ func (w *World) register(op Op) error {
 	case "str":
 		return textwire.RegisterStrFunc(op.Name, func(s string, args ...any) string {
 			note(s, args)
-			switch id % NumFns {
-			case 0:
-				return fmt.Sprintf("S%d<%s>", id, s)
-			case 1:
-				return fmt.Sprintf("S%d[%s|%s]", id, s, Describe([]any(args)))
-			case 2:
-				return ""
-			}
-			return strings.ToUpper(s) + fmt.Sprint(len(args))
+			return Catalogue("str", id, s, args).(string)
 		})
 	case "arr":
 		return textwire.RegisterArrFunc(op.Name, func(a []any, args ...any) []any {
 			note(a, args)
-			switch id % NumFns {
-			case 0:
-				out := make([]any, len(a))
-				for i, e := range a {
-					out[len(a)-1-i] = e
-				}
-				return out
-			case 1:
-				return ArrResult()
-			case 2:
-				return append([]any{Describe([]any(a))}, args...)
-			}
-			return nil
+			return Catalogue("arr", id, a, args).([]any)
 		})
 	case "int":
 		return textwire.RegisterIntFunc(op.Name, func(i int, args ...any) int {
 			note(i, args)
-			switch id % NumFns {
-			case 0:
-				return i + 1000*(id+1)
-			case 1:
-				return -i
-			case 2:
-				return len(args)
-			}
-			return i * 2
+			return Catalogue("int", id, i, args).(int)
 		})
 	case "float":
 		return textwire.RegisterFloatFunc(op.Name, func(f float64, args ...any) float64 {
 			note(f, args)
-			switch id % NumFns {
-			case 0:
-				return f + 0.5 + float64(id)
-			case 1:
-				return -f
-			case 2:
-				return float64(len(args))
-			}
-			return f * 2
+			return Catalogue("float", id, f, args).(float64)
 		})
 	case "bool":
 		return textwire.RegisterBoolFunc(op.Name, func(b bool, args ...any) bool {
 			note(b, args)
-			switch id % NumFns {
-			case 0:
-				return !b
-			case 1:
-				return b
-			case 2:
-				return len(args) > 0
-			}
-			return true
+			return Catalogue("bool", id, b, args).(bool)
 		})
 	}
 	panic("sim: unknown receiver type " + op.Recv)
